@@ -529,6 +529,37 @@ def mergedTreeOf (s0 : AggState) (reqs : List Req) (n : Str) : Option Tree :=
   | .ok s => (amGet s.agg.imports (s.agg.canonical n)).bind s.agg.types.unfold
   | .error _ => none
 
+/-! ### inside the fragment: `type` exports of value types and of function types -/
+
+/-- `t:y/pe: instance { r: type record { x: u8 }, ft: type func(), f: func() }` -/
+def cT1 : Types :=
+  { uid := 5, defined := [.record [(['x'], .prim .u8)]], funcs := [{}],
+    interfaces := [{ exports := [(['r'], .type (.value (.defined 0))), (['f', 't'], .type (.func 0)), (['f'], .func 0)] }] }
+/-- `t:y/pe: instance { p: type u8, r: type record { x: u8 } }` -/
+def cT2 : Types :=
+  { uid := 6, defined := [.record [(['x'], .prim .u8)]],
+    interfaces := [{ exports := [(['p'], .type (.value (.prim .u8))), (['r'], .type (.value (.defined 0)))] }] }
+/-- `t:y/pe: instance { r: value record { x: u8 } }` (a value export, not a `type` export) -/
+def cT3 : Types :=
+  { uid := 7, defined := [.record [(['x'], .prim .u8)]], interfaces := [{ exports := [(['r'], .value (.defined 0))] }] }
+/-- `t:y/pe: instance { r: type record { x: u16 } }` -/
+def cT4 : Types :=
+  { uid := 8, defined := [.record [(['x'], .prim .u16)]], interfaces := [{ exports := [(['r'], .type (.value (.defined 0)))] }] }
+def rT1 : Req := ("t:y/pe".toList, cT1, .instance 0)
+def rT2 : Req := ("t:y/pe".toList, cT2, .instance 0)
+def rT3 : Req := ("t:y/pe".toList, cT3, .instance 0)
+def rT4 : Req := ("t:y/pe".toList, cT4, .instance 0)
+
+/-- requirements with `type` exports of record / primitive / function types are in the fragment
+(so all the theorems above apply to them): equal types merge in both orders, to the four names;
+a `type` export against a value export of the same name, or against a different record, fails -/
+example : fragB [rT1, rT2] = true ∧ fragB [rT1, rT3] = true ∧ fragB [rT4, rT1] = true ∧
+    (aggregateAll [rT1, rT2] Agg.empty).toOption.isSome = true ∧
+    (aggregateAll [rT2, rT1] Agg.empty).toOption.isSome = true ∧
+    (mergedTreeOf Agg.empty [rT1, rT2] rT1.1).map (fun m => subNames m ((cT2.unfold (.instance 0)).getD .none)) = some true ∧
+    (aggregateAll [rT1, rT3] Agg.empty).toOption.isSome = false ∧
+    (aggregateAll [rT4, rT1] Agg.empty).toOption.isSome = false := by decide +kernel
+
 /-- **`agg_upper_bound` was false for `type` exports of interface type** (found by the proof
 attempt, confirmed on the real `TypeAggregator`, witnesses `c09x-1`/`c09x-2` of
 harness/src/bin/c09x.rs): aggregation succeeds in both orders and keeps the WIDER type `{a}` for
